@@ -577,6 +577,10 @@ func (wg *WeightedAuthorizationModelGraph) calculateNodeWeightAndFixDependencies
 			weights[key] = Infinite
 		}
 	}
+	if len(weights) == 0 {
+		// the only thing the node reaches is itself: no tuple can ever end at a terminal type
+		return fmt.Errorf("%w: %s node does not have any terminal type to reach to", ErrInvalidModel, node.uniqueLabel)
+	}
 	node.weights = weights
 
 	wg.fixDependantEdgesWeight(nodeID, referenceNodeID, references, tupleCycleDependencies)
